@@ -81,7 +81,7 @@ func digestBlock(c *vnet.Chain, txs [][]byte, res *abci.ResponseFinalizeBlock, r
 var c20OnNet func(*vnet.Network)
 
 // c20History runs history i and returns its block digests. realSeal: include ETH updates with the real ethash check.
-func c20History(i int, seed int64, realSeal bool) []blockDigest {
+func c20History(i int, seed int64, realSeal bool, wallT0 int64) []blockDigest {
 	rng := rand.New(rand.NewSource(seed*15485863 + int64(i)))
 	cfg := world.DefaultPktCfg()
 	cfg.NChains = 3
@@ -179,7 +179,26 @@ func c20History(i int, seed int64, realSeal bool) []blockDigest {
 		um, _ := clienttypes.NewMsgUpdateClient("eth-mainnet", toTibcEth(bad), host.Relayer.Addr)
 		host.Deliver(host.Relayer, um)
 	}
+	// ---- wall-clock probe: a synthetic ETH header dated wallT0 (a few seconds ahead of the real clock when the first
+	// execution runs) in a block whose *virtual* time is wallT0 as well. The block time makes it acceptable; an
+	// implementation that consults the wall clock instead answers differently depending on when it is executed.
+	if wallT0 != 0 {
+		net.Now = time.Unix(wallT0, 0).UTC()
+		ethtypes.VerifSkipSeal = true
+		if ef, err := newEthFeed(host, rng, "eth-wallclock"); err == nil {
+			h := synthChild(rng, ef.tree.Latest)
+			h.Time = uint64(wallT0)
+			h.Difficulty = model.ExpectedDifficulty(h.Time, ef.tree.Latest)
+			ef.deliver(host, h)
+		}
+		ethtypes.VerifSkipSeal = false
+	}
 	return out
+}
+
+func envInt64(k string) int64 {
+	v, _ := strconv.ParseInt(os.Getenv(k), 10, 64)
+	return v
 }
 
 func firstDiff(a, b []blockDigest) (int, string) {
@@ -208,7 +227,7 @@ func TestC20Child(t *testing.T) {
 		t.Skip("only run as a child of TestC20")
 	}
 	i, _ := strconv.Atoi(os.Getenv("VERIF_C20_HIST"))
-	ds := c20History(i, mon.Seed(), os.Getenv("VERIF_C20_REAL") == "1")
+	ds := c20History(i, mon.Seed(), os.Getenv("VERIF_C20_REAL") == "1", envInt64("VERIF_C20_T0"))
 	bz, _ := json.Marshal(ds)
 	if err := os.WriteFile(out, bz, 0o644); err != nil {
 		t.Fatal(err)
@@ -219,7 +238,7 @@ func TestC20(t *testing.T) {
 	rec := mon.New("C20", "exploration",
 		"histories containing every TIBC transaction kind (Tendermint client updates, packets on all ports over direct and relayed routes, acks, cleans, governance execution, failing and adversarial messages, creation and updates of a BSC client with valid and invalid synthetic headers, creation and updates of an ETH client on recorded mainnet headers with the real ethash check) are executed repeatedly: "+
 			"in the same process one after the other, and in fresh processes with different GOMAXPROCS, TMPDIR (pre-filled with junk), TZ and LANG, plus (fault) an unwritable TMPDIR; every block's inputs (time, tx bytes) and outputs (code, codespace, log, gas, data, events of every tx, app hash) are digested and the streams compared. One evaluation = one block compared between two executions; distinct = distinct (history, block) pairs")
-	rec.Require("blocks-compared", "fresh-process-replays", "eth-real-seal-blocks")
+	rec.Require("blocks-compared", "fresh-process-replays", "eth-real-seal-blocks", "wall-clock-probe-replayed-after-its-date")
 	seed := mon.Seed()
 	nHist := mon.Scale(4, 24)
 	if v, err := strconv.Atoi(os.Getenv("VERIF_C20_N")); err == nil && v > 0 {
@@ -227,6 +246,9 @@ func TestC20(t *testing.T) {
 	}
 	repeats := mon.Scale(2, 4)
 	exe, _ := os.Executable()
+	// the wall-clock probe of history 0 is dated 20 s ahead of the real clock now; the last fresh-process replay waits
+	// until the real clock has passed it
+	wallT0 := time.Now().Unix() + 20
 	tmpRoot, _ := os.MkdirTemp("", "c20-")
 	defer os.RemoveAll(tmpRoot)
 	type envCase struct {
@@ -246,7 +268,11 @@ func TestC20(t *testing.T) {
 	}
 	for i := 0; i < nHist; i++ {
 		realSeal := i == 0 || mon.Tier() == "thorough"
-		ref := c20History(i, seed, realSeal)
+		t0 := int64(0)
+		if i == 0 {
+			t0 = wallT0
+		}
+		ref := c20History(i, seed, realSeal, t0)
 		if realSeal {
 			rec.Count("eth-real-seal-blocks", 1)
 		}
@@ -271,7 +297,7 @@ func TestC20(t *testing.T) {
 			}
 		}
 		for r := 0; r < repeats; r++ {
-			compare("same-process-rerun", c20History(i, seed, realSeal))
+			compare("same-process-rerun", c20History(i, seed, realSeal, t0))
 		}
 		for e, ec := range envs {
 			if mon.Tier() == "quick" && i > 1 {
@@ -289,7 +315,14 @@ func TestC20(t *testing.T) {
 			if realSeal {
 				rs = "1"
 			}
-			cmd.Env = append(cmd.Env, "TMPDIR="+dir, "VERIF_C20_OUT="+outFile, "VERIF_C20_HIST="+strconv.Itoa(i), "VERIF_C20_REAL="+rs)
+			cmd.Env = append(cmd.Env, "TMPDIR="+dir, "VERIF_C20_OUT="+outFile, "VERIF_C20_HIST="+strconv.Itoa(i), "VERIF_C20_REAL="+rs, "VERIF_C20_T0="+strconv.FormatInt(t0, 10))
+			if i == 0 && e == len(envs)-1 {
+				// by now the real clock must have passed the probe's date
+				for time.Now().Unix() <= wallT0+16 {
+					time.Sleep(500 * time.Millisecond)
+				}
+				rec.Count("wall-clock-probe-replayed-after-its-date", 1)
+			}
 			t0 := time.Now()
 			outb, err := cmd.CombinedOutput()
 			os.Chmod(dir, 0o755)
@@ -347,12 +380,12 @@ func TestC20Race(t *testing.T) {
 			}
 		}
 	}
-	other := c20History(0, seed, true)
+	other := c20History(0, seed, true, 0)
 	close(stop)
 	wg.Wait()
 	c20OnNet = nil
 	// the reference run needs no readers and no second ethash: compare everything but the real-seal block count
-	ref := c20History(0, seed, true)
+	ref := c20History(0, seed, true, 0)
 	k, what := firstDiff(ref, other)
 	fmt.Printf("RACE-PASS blocks=%d concurrent_queries=%d first_diff=%d %s\n", len(other), atomic.LoadInt64(&queries), k, what)
 	if what == "results" {
